@@ -281,17 +281,23 @@ def _block_eigh_projector(p_block: np.ndarray, verbose: bool = False):
             col_id_cmplt = col_end_cmplt
             if verbose:
                 print(eigvecs.shape[1], "eigenvectors are found.", flush=True)
+        else:
+            # A skipped sub-block has no eigenvector with e = 1, but its coordinates
+            # still belong to the complementary space.
+            col_end_cmplt = col_id_cmplt + (end - begin)
+            cmplt[begin:end, col_id_cmplt:col_end_cmplt] = np.eye(end - begin)
+            col_id_cmplt = col_end_cmplt
 
     rank = int(round(np.trace(p_block)))
     if rank > 0:
         if verbose:
             print("Solving complementary projector.", flush=True)
-        cmplt = cmplt[:, :col_end_cmplt]
+        cmplt = cmplt[:, :col_id_cmplt]
         p_block_rem = cmplt.T @ p_block @ cmplt
         eigvecs = eigh_projector(p_block_rem, verbose=verbose)
-        if verbose:
+        if verbose and eigvecs is not None:
             print(eigvecs.shape[1], "eigenvectors are found.", flush=True)
-        if eigvecs.shape[1] > 0:
+        if eigvecs is not None and eigvecs.shape[1] > 0:
             col_end = col_id + eigvecs.shape[1]
             eigvecs_block[:, col_id:col_end] = cmplt @ eigvecs
             col_id = col_end
